@@ -44,7 +44,7 @@ def gen_pairs(rng, info, user_var=None):
         d = f'(if {c0} (do {a0}) {d})' if d is not None else f'(if {c0} (do {a0}))'
     out.append(('cond', lib_c, d))
     lst = rng.choice(["'(1 2 3)", "'()", "(list 4 5)", "(range 3)"])
-    body = f'(do (print x) (+ x {v}))'
+    body = f'(do (print x " " {v}) (+ x {v}))'      # the user variable is printed: a capture by the template shows in the output
     out.append(('for/list', f'(for/list [x {lst}] {body})', f'(map (fn [x] (do {body})) {lst})'))
     out.append(('for', f'(for [x {lst}] {body} (* x 2))',
                 f"(let ([t__ (map (fn [x] (do {body} (* x 2))) {lst})]) (if t__ (last t__) '()))"))
@@ -182,7 +182,7 @@ def run(tier, seed, replay=None):
             add('set-index', [], f'(list (set-index {i}) INDEX)', f"(do (step {(i - start) if inr else 0}) (list {'#t' if inr else '#f'} {i if inr else start}))", start, vcd, 'uv')
     # hygiene: every template symbol as the user's variable name
     vcd, info = gen.simple_trace(rng, n=4, scopes=TREE)
-    hyg = syms if tier == 'thorough' else rng.sample(syms, min(len(syms), 12))
+    hyg = syms          # all of them in both tiers: a capture shows only for the one name a template binds
     for s in hyg:
         for kind, L, D in gen_pairs(rng, info, user_var=s):
             if kind in ('when', 'unless', 'cond', 'for', 'for/list', 'inc', 'dec', 'defun', 'rising', 'always', 'timeframe', 'set!'):
